@@ -77,6 +77,25 @@ CHECKS["C10"] = dict(
     design="4 (C10)",
 )
 
+CHECKS["C01"] = dict(
+    technique="Coq proof (mutual inductive specification Sat/WT of typed, refined programs; induction on fuel over the state-and-error monad of create_node with one lemma per loop: backtracking over productions, fields with sibling values, tuples, repeated elements; membership lemma for every decider) over a hand-written Gallina model of the five deciders, create_node and the metahandlers + differential correspondence on real classes, deciders and random sources + the typing judgement evaluated on every observed program",
+    text="3 theorems (Props/C01.v, closed under the global context): for EVERY class hierarchy whose annotations refine a base type they can produce values of (decl_ok), every iteration order, every decider (grow, full, PI-grow, progressive, dynamic SGE), random source state, context and fuel, a value returned by create_node is a program of the requested type: a registered concrete production reachable through the rules where an abstract type is declared, well-typed list elements, a real tuple, one alternative of a union, exactly the declared base type; also after any sequence of earlier creations; a decider's pick is always one of the offered candidates. Tied to /repo by ~315 runs per check (a hierarchy with every field type form, generated hierarchies; recorded native streams, extreme scripted answers, GE/SGE gene sources; all four tree deciders) whose result, exception class, source state and productions are compared with the model inside Coq, and whose programs are type-checked field by field (bool is not int, a generator is foreign).",
+    note="Trusted: Coq kernel + vm_compute; hand-written model Model/Synth.v; Spec/WellTyped.v, Spec/Sat.v; harness. Proved for create_node (the path every representation's creation and mapping goes through); mutation/crossover of the tree representation regenerate through the same create_node (see C06); the stack representation is not covered by this theorem. Known finding F38 (ProgressivelyTerminalDecider has no depth bound: RecursionError) listed in known_findings.json.",
+    design="4 (C01)",
+)
+CHECKS["C02"] = dict(
+    technique="Coq proof (the Sat specification gives every refinement its documented predicate, dependent refinements evaluated against the actual sibling values; induction on fuel as for C01 with a typing invariant on the sibling values; separate lemmas: generate/validate agreement, validate soundness) over a hand-written Gallina model of all metahandler generate/validate methods and create_node + differential correspondence + the specification evaluated on every observed program (strict) + each refinement's generate/validate driven on its own",
+    text="5 theorems (Props/C02.v, closed under the global context): every value create_node returns satisfies, at every refined position (top level, in lists, sized lists, unions, tuples, nested nodes), the documented predicate of IntRange, IntList, FloatRange, FloatList, VarRange, ListSizeBetween (both), StringSizeBetween, WeightedStringHandler, IntervalRange, and of Dependent(...) evaluated against the ACTUAL sibling values (one or two dependencies, any naming order) - for every hierarchy with decl_ok, decider, source, context, fuel, and after any sequence of creations; validate() accepts every value generate() produces for all parameters incl. lo == hi; validate() accepts exactly the documented predicate. Tied to /repo by ~470 runs per check: every refinement with boundary parameters at five positions, seven dependent hierarchies, generated hierarchies, and each refinement driven alone (generate from scripted/recorded/gene sources, then validate).",
+    note="Trusted: Coq kernel + vm_compute; model; Spec/Sat.v; harness. PARTIAL: float refinements over exact rationals (IEEE rounding at end-points not covered); Dependent(...) for a defunctionalised family of callables; a refinement whose range is empty (lo > hi, possible for dependent ranges) promises nothing. The stack representation is not covered. Known finding F05 (Dependent.validate raises NotImplementedError).",
+    design="4 (C02)",
+)
+CHECKS["C03"] = dict(
+    technique="Coq proof (exactness of the distance analysis from C05 gives: an abstract type within budget has a production within budget, a production's fields fit one level deeper; 'safe' predicate transformer over the state-and-error monad; induction on fuel with one lemma per loop; every decider's filter characterised) over the hand-written Gallina model of the deciders and create_node + differential correspondence for every limit from below the minimum upwards + the depth bound and the up-front rejection evaluated on every observed run",
+    text="3 theorems (Props/C03.v, closed under the global context): default depth mode, EVERY hierarchy (decl_ok, decl_live: no empty option lists, no refinement that rejects sibling values), every iteration order, every depth-limited decider (grow, full, PI-grow, dynamic SGE) with a limit D its validate() accepted, every random source state and fuel: creation from the start symbol returns a program of depth <= D or fails with an error that is neither AssertionError (the filtered candidate list is never empty) nor SynthesisException; a limit below the grammar's minimum is rejected by the decider's constructor with GeneticEngineError and every limit at or above it is accepted; the decider's pick always fits the remaining budget. Tied to /repo by ~850 runs per check: a family with list-of-abstract fields, unions, nested abstract layers, mutual recursion in both depth modes at every limit 0..6 for the three tree deciders, plus generated hierarchies.",
+    note="Trusted: Coq kernel + vm_compute; model; harness. PARTIAL: proved for the default depth mode (expansion-depthing: correspondence and the observed depth bound only) and for creation; closure under mutation/crossover rests on the fact that tree variation regenerates through create_node with a fresh context (known finding F13, see C06) and is exercised, not proved.",
+    design="4 (C03)",
+)
+
 ALL = [f"C{n:02d}" for n in range(1, 21)]
 
 m = {
